@@ -11,6 +11,7 @@
 package main
 
 import (
+	"encoding/json"
 	"fmt"
 	"math"
 	"os"
@@ -336,15 +337,33 @@ func main() {
 	o.ShardSize = 12
 	o.DeclareSuite("stream", "From Coq Require Import Uint63.\nFrom Verif Require Import C15.Model.", "fcase", "run_flat")
 	o.DeclareSuite("witness", "From Coq Require Import Uint63.\nFrom Verif Require Import C15.Model C15.Witness.", "fcase", "run_witness")
+	o.DeclareSuite("faults", "From Coq Require Import Uint63.\nFrom Verif Require Import C15.Model C15.Faults.", "fcase", "run_faults")
 	o.Rule("random access-log streams of 1-30 records over small URL alphabets (2-6 path parts, depth 1-3, " +
 		"1-3 hosts, split threshold 1-3 so that path-parameter convergence happens mid-stream; some streams with " +
 		"empty path parts, ':::' in a URL, '{id}' parts, declared endpoints, second-aligned stamps), each run " +
 		"unsplit, under every cut into two batches with and without a restart in between, with an empty batch, " +
 		"(thorough: three batches); distinct = distinct (stream, batchings, observations); non-trivial = some " +
-		"run re-keyed a non-empty aggregate after a convergence and some run restarted")
-	var k Case
-	if _, ok := o.ReplayCase(&k); ok {
-		process(o, &k)
+		"run re-keyed a non-empty aggregate after a convergence and some run restarted. Suite faults: streams of 1-10 " +
+		"records (split threshold 50 as in production for two thirds, 1-3 for the rest) in three flushes under every " +
+		"set of failing state-file writes (directory renamed away / a directory at the file's path during that " +
+		"flush) and restart placements, plus random plans of 2-6 flushes; observed after every flush: error class " +
+		"of discovery.Run, in-memory aggregation, state file (own JSON reader); non-trivial = some run has a failed " +
+		"write followed by a successful one and a restart that drops a flush whose write failed")
+	var raw json.RawMessage
+	if suite, ok := o.ReplayCase(&raw); ok {
+		if suite == "faults" {
+			var fk FaultCase
+			if err := json.Unmarshal(raw, &fk); err != nil {
+				panic(err)
+			}
+			processFaults(o, &fk)
+		} else {
+			var k Case
+			if err := json.Unmarshal(raw, &k); err != nil {
+				panic(err)
+			}
+			process(o, &k)
+		}
 		o.Finish()
 		return
 	}
@@ -370,6 +389,16 @@ func main() {
 		k := genCase(o.Rng, maxLen)
 		k.Runs = batchings(o, len(k.Records))
 		process(o, &k)
+	}
+	// failing writes of the state file (faults.go)
+	for _, fk := range faultCorpus() {
+		fk := fk
+		processFaults(o, &fk)
+	}
+	nf := o.Scale(30, 300, 300)
+	for i := 0; i < nf; i++ {
+		fk := genFaultCase(o, i)
+		processFaults(o, &fk)
 	}
 	o.Finish()
 }
